@@ -99,6 +99,18 @@ def main(argv):
                 res = P.run_case(ctx, rng, index, casedir)
             except monitor.ContractBroken:
                 raise
+            except Exception as e:  # noqa: BLE001
+                # an exception raised *by the code under test* during a library-level call is an
+                # observation about gaftools (a violation of "never fails"), not a harness failure
+                tb = traceback.extract_tb(e.__traceback__)
+                inner = tb[-1].filename if tb else ""
+                if inner.startswith(util.REPO + os.sep):
+                    res = {"sig": None, "nontrivial": False,
+                           "violations": [{"kind": "uncaught_exception_in_code_under_test",
+                                           "msg": f"{type(e).__name__}: {e} at {inner.split('/gaftools/')[-1]}:{tb[-1].lineno} ({tb[-1].name})",
+                                           "witness": {"exc": type(e).__name__, "tb": traceback.format_exc()[-1200:]}}]}
+                else:
+                    raise
             res = res or {}
             viols = list(res.get("violations", [])) + monitor.drain()
             for v in viols:
